@@ -46,6 +46,19 @@ pub fn round_up(digits: &mut [u8], count: usize, radix: u32) -> (usize, bool) {
     (1, true)
 }
 
+/// Get the number of digits without the trailing zeros left by dropped digits.
+///
+/// Rounding up already drops them, since it shortens the digits to the one
+/// it incremented, so rounding down must not keep them either.
+#[inline(always)]
+fn trim_trailing_zeros(digits: &[u8], count: usize) -> usize {
+    let mut count = count;
+    while count > 1 && digits[count - 1] == b'0' {
+        count -= 1;
+    }
+    count
+}
+
 /// Round the number of digits based on the maximum digits, for decimal digits.
 ///
 /// `digits` is a mutable buffer of the current digits, `digit_count` is the
@@ -73,7 +86,7 @@ pub fn truncate_and_round_decimal(
     // Check if we're truncating, if so, shorten the digits in the input.
     if options.round_mode() == RoundMode::Truncate {
         // Don't round input, just shorten number of digits emitted.
-        return (max_digits, false);
+        return (trim_trailing_zeros(digits, max_digits), false);
     }
 
     // We need to round-nearest, tie-even, so we need to handle
@@ -86,7 +99,7 @@ pub fn truncate_and_round_decimal(
     let truncated = digits[max_digits];
     let (digits, carried) = if truncated < b'5' {
         // Just truncate, going to round-down anyway.
-        (max_digits, false)
+        (trim_trailing_zeros(digits, max_digits), false)
     } else if truncated > b'5' {
         // Round-up always.
         round_up(digits, max_digits, 10)
@@ -100,7 +113,7 @@ pub fn truncate_and_round_decimal(
             // digit_count`.
             round_up(digits, max_digits, 10)
         } else {
-            (max_digits, false)
+            (trim_trailing_zeros(digits, max_digits), false)
         }
     };
 
